@@ -109,7 +109,7 @@ impl Prop for C16Prop {
         "C16"
     }
     fn rule(&self) -> String {
-        "Cases are call histories: 200..1000 (quick) / up to 5000 (thorough) calls (evaluator, expression, placeholder) drawn from a per-history dictionary of 12..60 expressions (well-formed with and without @, error-producing, malformed, plus 1..3 argument sweeps: one function - Lambert W weighted - at 3..6 nearby arguments) so that keys repeat, each reused with changing placeholders and interleaved across all five evaluators; the whole history is one generated value (a choice sequence) and shrinks as one. Oracle (no-state model): every occurrence of a key must return, bit for bit, the outcome of its isolated first-time evaluation, computed by a fresh child process making exactly that one call. The history is run sequentially in-process, then replayed concurrently by 16 threads each starting at a different rotation, then every thread hammers one expression with different placeholders. non-trivial = an occurrence whose expression occurred earlier in the history with a different placeholder or evaluator, or that directly follows an Err-producing call; distinct by (key, predecessor key). evaluations counts library calls (sequential + concurrent + child processes).".into()
+        "Cases are call histories: 200..1000 (quick) / up to 5000 (thorough) calls (evaluator, expression, placeholder) drawn from a per-history dictionary of 12..60 expressions (well-formed with and without @, error-producing, malformed, plus 1..3 argument sweeps: one function - Lambert W weighted - at 3..6 nearby arguments) so that keys repeat, each reused with changing placeholders and interleaved across all five evaluators; the whole history is one generated value (a choice sequence) and shrinks as one. Oracle (no-state model): every occurrence of a key must return, bit for bit, the outcome of its isolated first-time evaluation, computed by a fresh child process making exactly that one call. The history is run sequentially in-process, then replayed concurrently by 16 threads each starting at a different rotation, then every thread evaluates the deepest inputs 256 characters allow at the same time as the others (process-wide counters), then hammers one expression with different placeholders. One call in five is followed by an immediate repeat of the same expression with a placeholder pair that compares equal but differs (0.0/-0.0, 2/2.00, Integer 3/Float 3.0). non-trivial = an occurrence whose expression occurred earlier in the history with a different placeholder or evaluator, or that directly follows an Err-producing call; distinct by (key, predecessor key). evaluations counts library calls (sequential + concurrent + child processes).".into()
     }
     fn assumptions(&self) -> Vec<String> {
         vec!["thread interleavings are whatever the OS produces under 16-way contention (not enumerated): the crate uses no synchronisation primitive a schedule explorer could intercept".into()]
@@ -128,6 +128,30 @@ impl Prop for C16Prop {
             let pool = ph_pool(*ev);
             let ph = &pool[(c.below(6) as usize * 5) % pool.len()];
             hist.push(format!("{}|{}|{}", ev.name(), ph.enc(), ex));
+            if c.below(5) == 4 {
+                // immediately the same expression again with a placeholder that compares equal but is another value
+                // (other sign of zero, other scale, other variant): the classic way a memo keyed with == goes wrong
+                let twins: Vec<(Val, Val)> = match ev {
+                    Ev::F64 => vec![(Val::F(0.0), Val::F(-0.0)), (Val::F(-0.0), Val::F(0.0))],
+                    Ev::Cpx => vec![(Val::C(0.0, 1.0), Val::C(-0.0, 1.0)), (Val::C(2.0, 0.0), Val::C(2.0, -0.0))],
+                    Ev::Dec => vec![(Val::D(dec("2")), Val::D(dec("2.00"))), (Val::D(dec("0")), Val::D(dec("-0.0"))), (Val::D(dec("7.50")), Val::D(dec("7.5")))],
+                    Ev::Num => vec![(Val::NF(0.0), Val::NF(-0.0)), (Val::NI(3), Val::NF(3.0)), (Val::NF(-0.0), Val::NI(0))],
+                    Ev::I64 => vec![(Val::I(5), Val::I(-5))],
+                };
+                let (a, b) = &twins[c.below(twins.len() as u32) as usize];
+                let b = if let (Ev::Dec, Val::D(d)) = (*ev, b) {
+                    // "-0.0" parses as zero with the sign lost in text form: set it explicitly
+                    let mut d = *d;
+                    if d.is_zero() && b.enc().contains('-') {
+                        d.set_sign_negative(true);
+                    }
+                    Val::D(d)
+                } else {
+                    b.clone()
+                };
+                hist.push(format!("{}|{}|{}", ev.name(), a.enc(), ex));
+                hist.push(format!("{}|{}|{}", ev.name(), b.enc(), ex));
+            }
         }
         let mut case = Case::new(Ev::F64, format!("history of {} calls over {} expressions", hist.len(), dict.len()), Val::F(0.0));
         case.aux = hist;
@@ -204,6 +228,25 @@ impl Prop for C16Prop {
                         if !(got.starts_with("panic") || got.starts_with("budget")) && &got != &base[k] {
                             *bad.lock().unwrap() = Some((t, format!("{} {:?} placeholder {}", k.0.name(), k.2, k.1), format!("{} instead of {}", got, base[k])));
                             return;
+                        }
+                    }
+                    // all threads deep inside the parser / evaluator at the same time (process-wide counters, shared
+                    // scratch buffers): the deepest inputs 256 characters allow, compared with their sequential outcome
+                    for (dev, deep) in [(Ev::F64, format!("{}1", "-".repeat(250))), (Ev::Num, format!("{}7{}", "(".repeat(120), ")".repeat(120))), (Ev::Dec, format!("1{}", "+1".repeat(120))), (Ev::I64, format!("{}1{}", "abs(".repeat(50), ")".repeat(50)))] {
+                        let key: Key = (dev, Val::default_for(dev).enc(), deep);
+                        let want = match dev {
+                            Ev::F64 => "ok f64:0x3ff0000000000000".to_string(),
+                            Ev::Num => "ok numi:7".to_string(),
+                            Ev::Dec => "ok dec:121".to_string(),
+                            _ => "ok i64:1".to_string(),
+                        };
+                        for _ in 0..20 {
+                            let got = call(&key);
+                            calls.fetch_add(1, std::sync::atomic::Ordering::Relaxed);
+                            if got != want && !(got.starts_with("panic") || got.starts_with("budget")) {
+                                *bad.lock().unwrap() = Some((t, format!("{} {:?}", key.0.name(), key.2), format!("{} instead of {} while 15 other threads evaluate deep inputs", got, want)));
+                                return;
+                            }
                         }
                     }
                     // hammer one expression with this thread's own placeholder
